@@ -17,6 +17,7 @@ from common import Check, Driver, Infra, VERIF, sarpy_guard
 import segtree
 import c01complete
 import segmodel
+import nitfasm
 
 sys.path.insert(0, os.path.join(VERIF, 'translate'))
 
@@ -615,9 +616,10 @@ def run(tier):
     gen_info = gen_slices.generate(os.path.join(VERIF, 'lean', 'SarpyModel', 'Gen', 'Slices.lean'))
     if gen_info['unsupported']:
         gen_info['note'] = 'translator could not express: ' + json.dumps(gen_info['unsupported'])
-    broken = chk.prove(['SarpyModel.Props.C01', 'SarpyModel.Props.C01Nd', 'SarpyModel.Props.C01Complete', segmodel.SEG_MODULE, 'SarpyModel.Drivers'], 'SarpyModel.Props.C01Complete', 'Sarpy.Props.C01', REQUIRED, gen_info)
+    broken = chk.prove(['SarpyModel.Props.C01', 'SarpyModel.Props.C01Nd', 'SarpyModel.Props.C01Complete', segmodel.SEG_MODULE, nitfasm.NITF_MODULE, 'SarpyModel.Drivers'], 'SarpyModel.Props.C01Complete', 'Sarpy.Props.C01', REQUIRED, gen_info)
     if not broken:
         segmodel.obligations_reads(chk, broken)      # Props/C01Seg.lean: segment trees as index maps, read = select(full)
+        nitfasm.obligations(chk, broken)             # Props/C01Nitf.lean: how the NITF reader builds those trees from subheader fields
 
     # ---- correspondence: kernels three-way (python / Gen / Spec) and numpy-spec validation
     disagreements = []
@@ -634,6 +636,7 @@ def run(tier):
         ccs = c01complete.supported_oracle_cases(rng, tier)
         ccq = c01complete.enqueue(drv, ccs)
         seg_plan = segmodel.plan_reads(drv, rng, tier)
+        nitf_plan = nitfasm.plan(drv, rng, tier)
         ans = drv.run()
     except Infra as e:
         drv_ok = False
@@ -732,6 +735,11 @@ def run(tier):
             disagreements += seg_dis
             evaluations += seg_stats['reads'] + seg_stats['full_reads']
             chk.coverage['segment_model'] = seg_stats
+        nitf_dis, nitf_fails, nitf_stats = nitfasm.check(nitf_plan if drv_ok else nitfasm.plan(None, rng, tier), ans, tmpdir)
+        disagreements += nitf_dis
+        fails += nitf_fails
+        evaluations += nitf_stats.get('reads', 0)
+        chk.coverage['nitf_assembly'] = nitf_stats
         if tier == 'thorough':
             exhaustive_small(fails, stats, tmpdir)
     finally:
@@ -764,7 +772,7 @@ def run(tier):
         'block aggregates with holes, ComplexFormatFunction IQ/QI with collapsed band axis); complex with the band dimension kept, MP/PM and '
         'LUT format functions are tied by the numpy oracle only',
         'JPEG/JPEG2000/HDF5 segments outside the model',
-    ]
+    ] + nitfasm.ASSUMPTIONS
 
     # ---- decide
     all_fail = oracle_fail + fails
@@ -825,6 +833,8 @@ def replay(path):
         m = c01complete.replay_case(case['case'])
         print('completeness oracle:', m)
         return 1 if m else 0
+    if case['kind'] == 'nitf':
+        return nitfasm.replay_case(case)
     if case['kind'] == 'kernel':
         m = kernel_oracle(tuple(tuple(x) if isinstance(x, list) else x for x in case['case']))
         print('kernel oracle:', m)
